@@ -38,6 +38,11 @@ type CG struct {
 	DepthInc      []int    `json:"depth_inc"`
 	DepthDeferDec []int    `json:"depth_defer_dec"`
 	Dynamic       []string `json:"dynamic_calls"` // caller -> description of dynamic call sites
+	// the counter field found by its role (Type.field), the helpers inlined into their callers, and per guard the
+	// bound L such that recursive calls happen only while counter <= L (depthguard.go)
+	DepthField   string   `json:"depth_field"`
+	DepthHelpers []string `json:"depth_helpers"`
+	GuardLimits  []int64  `json:"guard_limits"`
 }
 
 type ErrSite struct {
@@ -120,12 +125,13 @@ func main() {
 	prog, _ := ssautil.AllPackages(pkgs, ssa.InstantiateGenerics)
 	prog.Build()
 	cg := static.CallGraph(prog)
+	depthInfos := map[string]*depthInfo{}
 	for _, short := range []string{"pkg/sql/parser", "pkg/sql/tokenizer", "pkg/sql/ast", "pkg/gosqlx", "pkg/sql/security"} {
 		p := byPath[mod+"/"+short]
 		if p == nil {
 			continue
 		}
-		out.CallGraphs[short] = callGraph(prog, cg, p)
+		out.CallGraphs[short], depthInfos[short] = callGraph(prog, cg, p)
 	}
 	for _, short := range []string{"pkg/sql/parser", "pkg/sql/tokenizer", "pkg/gosqlx"} {
 		p := byPath[mod+"/"+short]
@@ -137,7 +143,7 @@ func main() {
 	errFlow(prog, cg, byPath, *outJSON) // errsites.go: error-flow table (C13/C11) -> errflow.json
 	for _, tn := range [][2]string{{"pkg/sql/parser", "Parser"}, {"pkg/sql/tokenizer", "Tokenizer"}} {
 		if p := byPath[mod+"/"+tn[0]]; p != nil {
-			if fx := fieldFx(prog, p, tn[1]); fx != nil {
+			if fx := fieldFx(prog, p, tn[1], depthInfos[tn[0]]); fx != nil {
 				out.FieldFx = append(out.FieldFx, fx)
 			}
 		}
@@ -288,7 +294,7 @@ func fnName(f *ssa.Function) string {
 	return f.Name()
 }
 
-func callGraph(prog *ssa.Program, cg *callgraph.Graph, p *packages.Package) *CG {
+func callGraph(prog *ssa.Program, cg *callgraph.Graph, p *packages.Package) (*CG, *depthInfo) {
 	spkg := prog.Package(p.Types)
 	res := &CG{}
 	idx := map[string]int{}
@@ -399,195 +405,38 @@ func callGraph(prog *ssa.Program, cg *callgraph.Graph, p *packages.Package) *CG 
 			}
 		}
 	}
-	// guards
-	for i, fn := range fns {
-		inc, deferDec, cmp := depthFacts(fn, canRecurse)
-		if inc {
-			res.DepthInc = append(res.DepthInc, i)
-		}
-		if inc && deferDec {
-			res.DepthDeferDec = append(res.DepthDeferDec, i)
-		}
-		if inc && deferDec && cmp {
-			res.Guards = append(res.Guards, i)
-		}
-	}
-	return res
-}
-
-// depthFacts recognises in fn (a method whose receiver has a field named depth):
-//
-//	inc:      a store recv.depth = recv.depth + 1 in a block Binc, before any in-package call of that block
-//	deferDec: a defer of a closure whose body stores depth = depth - 1, in a block Bdef dominated by Binc
-//	cmp:      a block Bcmp (dominated by Bdef) ending in `if recv.depth > K` whose true side returns, and whose
-//	          false side dominates every block of fn that calls a function of the package from which a cycle of
-//	          the call graph can be reached (so no recursive descent can happen before the counter was
-//	          incremented and checked; calls to helpers that cannot lead into recursion are ignored)
-func depthFacts(fn *ssa.Function, canRecurse map[string]bool) (inc, deferDec, cmp bool) {
-	if len(fn.Blocks) == 0 {
-		return
-	}
-	isDepthLoad := func(v ssa.Value) bool {
-		u, ok := v.(*ssa.UnOp)
-		return ok && u.Op == token.MUL && isDepthAddrFree(u.X)
-	}
-	inPkgCall := func(ins ssa.Instruction) bool {
-		c, ok := ins.(ssa.CallInstruction)
-		if !ok {
-			return false
-		}
-		if _, isDefer := ins.(*ssa.Defer); isDefer {
-			return false
-		}
-		sc := c.Common().StaticCallee()
-		if sc == nil {
-			// a call through a function value or an interface: cannot be shown harmless
-			if _, isBuiltin := c.Common().Value.(*ssa.Builtin); isBuiltin {
-				return false
-			}
-			return c.Common().IsInvoke() == false
-		}
-		return sc.Pkg == fn.Pkg && canRecurse[fnName(rootFn(sc))]
-	}
-	var bInc, bDef, bCmp *ssa.BasicBlock
-	for _, b := range fn.Blocks {
-		for _, ins := range b.Instrs {
-			if inPkgCall(ins) {
-				break
-			}
-			st, ok := ins.(*ssa.Store)
-			if !ok || !isDepthAddrFree(st.Addr) {
-				continue
-			}
-			bo, ok := st.Val.(*ssa.BinOp)
-			if !ok || bo.Op != token.ADD {
-				continue
-			}
-			if c, ok := bo.Y.(*ssa.Const); ok && isDepthLoad(bo.X) && c.Value != nil && constant.Compare(c.Value, token.EQL, constant.MakeInt64(1)) {
-				bInc = b
-			}
-		}
-		if bInc != nil {
-			break
-		}
-	}
-	if bInc == nil {
-		return
-	}
-	inc = true
-	for _, b := range fn.Blocks {
-		if !(b == bInc || bInc.Dominates(b)) {
-			continue
-		}
-		for _, ins := range b.Instrs {
-			d, ok := ins.(*ssa.Defer)
-			if !ok {
-				continue
-			}
-			var callee *ssa.Function
-			switch v := d.Call.Value.(type) {
-			case *ssa.MakeClosure:
-				callee = v.Fn.(*ssa.Function)
-			case *ssa.Function:
-				callee = v
-			}
-			if callee != nil && storeDeltaAny(callee, isDepthAddrFree) {
-				bDef = b
-			}
-		}
-		if bDef != nil {
-			break
-		}
-	}
-	if bDef == nil {
-		return
-	}
-	deferDec = true
-	for _, b := range fn.Blocks {
-		if !(b == bDef || bDef.Dominates(b)) || len(b.Instrs) == 0 {
-			continue
-		}
-		iff, ok := b.Instrs[len(b.Instrs)-1].(*ssa.If)
-		if !ok {
-			continue
-		}
-		bo, ok := iff.Cond.(*ssa.BinOp)
-		if !ok || bo.Op != token.GTR || !isDepthLoad(bo.X) {
-			continue
-		}
-		if _, ok := bo.Y.(*ssa.Const); !ok {
-			continue
-		}
-		succ := b.Succs[0]
-		if len(succ.Instrs) == 0 {
-			continue
-		}
-		if _, ok := succ.Instrs[len(succ.Instrs)-1].(*ssa.Return); !ok {
-			continue
-		}
-		hasCall := false
-		for _, ins := range succ.Instrs {
-			if inPkgCall(ins) {
-				hasCall = true
-			}
-		}
-		if !hasCall {
-			bCmp = b
-			break
-		}
-	}
-	if bCmp == nil {
-		return
-	}
-	ok := true
-	cont := bCmp.Succs[1]
-	for _, b := range fn.Blocks {
-		calls := false
-		for _, ins := range b.Instrs {
-			if inPkgCall(ins) {
-				calls = true
-			}
-		}
-		if calls && !(b == cont || cont.Dominates(b)) {
-			ok = false
-		}
-	}
-	// closures of fn must not be reachable before the check either: conservative, closures only run when called,
-	// and they are created after; in-package calls inside closures are attributed to fn in the graph, accepted here.
-	cmp = ok
-	return
-}
-
-// in a closure the receiver is a free variable: depth address is FieldAddr over a load of the free var
-func isDepthAddrFree(v ssa.Value) bool {
-	fa, ok := v.(*ssa.FieldAddr)
-	if !ok {
-		return false
-	}
-	st, ok := deref(fa.X.Type()).Underlying().(*types.Struct)
-	if !ok {
-		return false
-	}
-	return st.Field(fa.Field).Name() == "depth"
-}
-
-func storeDeltaAny(f *ssa.Function, isAddr func(ssa.Value) bool) bool {
-	for _, b := range f.Blocks {
-		for _, ins := range b.Instrs {
-			st, ok := ins.(*ssa.Store)
-			if !ok || !isAddr(st.Addr) {
-				continue
-			}
-			bo, ok := st.Val.(*ssa.BinOp)
-			if !ok || bo.Op != token.SUB {
-				continue
-			}
-			if c, ok := bo.Y.(*ssa.Const); ok && c.Value != nil && constant.Compare(c.Value, token.EQL, constant.MakeInt64(1)) {
-				return true
+	// guards: semantic recogniser over SSA (depthguard.go)
+	region := map[string]bool{}
+	for i := 0; i < n; i++ {
+		if reach[i][i] {
+			region[fnName(fns[i])] = true
+			for v := range reach[i] {
+				region[fnName(fns[v])] = true
 			}
 		}
 	}
-	return false
+	di := depthGuards(prog, spkg, fns, canRecurse, region)
+	if di != nil {
+		if di.Owner != nil {
+			res.DepthField = di.Owner.Obj().Name() + "." + di.Field.Name()
+		}
+		for i, fn := range fns {
+			if di.Touches[fn] {
+				res.DepthInc = append(res.DepthInc, i)
+			}
+			if di.Touches[fn] && di.Balanced[fn] {
+				res.DepthDeferDec = append(res.DepthDeferDec, i)
+			}
+			if di.Touches[fn] && di.Guard[fn] {
+				res.Guards = append(res.Guards, i)
+				res.GuardLimits = append(res.GuardLimits, di.Limits[fn])
+			}
+			if di.Helpers[fn] {
+				res.DepthHelpers = append(res.DepthHelpers, fnName(fn))
+			}
+		}
+	}
+	return res, di
 }
 
 func deref(t types.Type) types.Type {
